@@ -49,6 +49,9 @@ OF_VARIANTS = collections.OrderedDict([
     ('last=3', lambda: (spread(range(4), 5), 5)),
     ('full0-28,al8', lambda: (spread(range(29), 8, minus_one=range(20, 29)), 8)),
     ('dominant', lambda: (fg.fse_normalize({0: 1, 2: 1, 4: 1}, 5, force={2: 29}), 5)),
+    # every code a first block can need (content + 128 KiB) is present, nothing above: valid for the first block, unusable further into the frame
+    ('all-present,codes0-17', lambda: (spread(range(18), 6), 6)),
+    ('all-present,codes0-18', lambda: (spread(range(19), 6), 6)),
 ])
 
 ML_VARIANTS = collections.OrderedDict([
